@@ -306,8 +306,9 @@ pub(super) fn derive_schema(input: TokenStream) -> syn::Result<TokenStream> {
                     type_schemas.push(schema)
                 }
 
+                /* `anyOf`: the element types may overlap, e.g. `(i32, u8)` */
                 Ok(quote! {
-                    ::ohkami::openapi::array(::ohkami::openapi::oneOf(
+                    ::ohkami::openapi::array(::ohkami::openapi::anyOf(
                         (#(#type_schemas,)*)
                     ))
                 })
@@ -454,11 +455,20 @@ pub(super) fn derive_schema(input: TokenStream) -> syn::Result<TokenStream> {
                 variant_schemas.push(schema)
             }
 
-            Ok(quote! {
-                ::ohkami::openapi::oneOf(
-                    ( #(#variant_schemas,)* )
-                )
-            })
+            if container_attrs.serde.untagged {
+                /* nothing tells untagged variants apart: a value may fit several of them, e.g. `A(i32), B(u8)` */
+                Ok(quote! {
+                    ::ohkami::openapi::anyOf(
+                        ( #(#variant_schemas,)* )
+                    )
+                })
+            } else {
+                Ok(quote! {
+                    ::ohkami::openapi::oneOf(
+                        ( #(#variant_schemas,)* )
+                    )
+                })
+            }
         }
     }
 }
